@@ -228,3 +228,45 @@ def stack_stage(chk, hit, tier, seed, only):
             if oks and sc["materials"] != 1:
                 hit("stack_split", sc, "equivocating participant split the honest parties: " + tag)
     return ssc
+
+
+def run_backend_cancel(chk, tier, seed):
+    """C11 at the backend: cancellation matrix of TBLS.KeyGen / TPS.KeyGen (harness/dkg cancel).  Called from checks/orch.py.
+    Adds monitor hits / coverage to chk; returns the list of cases."""
+    ok, blog = vlib.go_build("dkg", "dkg")
+    if not ok:
+        chk.violation("go_build_dkg.txt", "harness/dkg does not build against /repo:\n" + blog[-4000:], no_input=True)
+        return []
+    path = os.path.join(chk.rundir(), "cancel.jsonl")
+    rc, out = vlib.run_harness("dkg", ["cancel", "-seed", str(seed), "-tier", tier], path, timeout=1800)
+    if rc != 0:
+        chk.violation("harness_cancel.txt", "cancellation-matrix harness failed (exit %d):\n%s" % (rc, out[-4000:]), no_input=True)
+        return []
+    cases = vlib.read_jsonl(path)
+    n = collections.Counter()
+    for c in cases:
+        tag = "%s KeyGen n=%d t=%d, wait for %s, context done %s%s" % (
+            c["pkg"], c["n"], c["t"], c["wait"], c["mode"],
+            "" if c["mode"] != "silent" else " (deadline; %s silent after %d kinds of messages)"
+            % ("one peer" if c["one_peer"] else "every peer", c["silent_after"]))
+        bad = None
+        if c["verdict"] == "hang":
+            bad = ("backend_hang", "KeyGen did not return within 2 s after its context was done: " + tag)
+        elif c["verdict"] == "panic":
+            bad = ("backend_cancel_panic", "KeyGen panicked when its context ended: " + tag)
+        elif c["verdict"] == "ok":
+            bad = ("backend_cancel_ok", "KeyGen reported success although its context ended before the protocol could complete: " + tag)
+        elif not c["reached"]:
+            bad = ("backend_cancel_unreached", "the harness could not bring KeyGen into the intended situation: " + tag)
+        if bad:
+            n[bad[0]] += 1
+            if n[bad[0]] <= 3:
+                chk.monitor_hit("", "%s_%d.json" % (bad[0], n[bad[0]]),
+                                dict(what=bad[1], case=c, replay="build/bin/dkg cancel -seed %d -tier %s   (case id %d)" % (seed, tier, c["id"])),
+                                bad[1])
+            else:
+                chk.cov["monitor_hits"] += 1
+    chk.cov["backend_cancellation"] = dict(collections.Counter(
+        "%s/%s/%s/%s" % (c["pkg"], c["wait"], c["mode"], c["verdict"]) for c in cases))
+    chk.cov["evaluations"] = chk.cov.get("evaluations", 0) + len(cases)
+    return cases
